@@ -5,7 +5,7 @@ PROP = dict(
     extract=["bopomofo", "syllable", "sqlite_v1"],
     lean_targets=["Chewing.Props.C19"],
     runs=[dict(bin="legacy", timeout=900), dict(bin="legacysql", features=["sqlite"], timeout=900)],
-    scope=fn_scope("loader start", "loader cstart", "loader learn", "loader encbin", "loader sqlstart", "loader sqlv1"),
+    scope=fn_scope("loader start", "loader cstart", "loader learn", "loader encbin", "loader enctext", "loader sqlstart", "loader sqlv1"),
     level="proof",
     exhaustive=False,
     rule="one evaluation = one start-up (UserDictionaryLoader::load in-process, chewing_new2 in a child process) or one "
@@ -13,7 +13,12 @@ PROP = dict(
          "+ legacy file bytes): generated valid binary/text stores (1-11 syllables, deleted and negative records, lifetimes across "
          "the u16 boundary), first start, second start, learning, restart; the legacy file is compared byte-for-byte afterwards; "
          "`loader encbin` = the Lean writer encodeBin / GRec.Valid / liveRecs against the generator's own encoder on every generated "
-         "binary store; `loader sqlstart` (feature sqlite) = first start over a directory holding only chewing.sqlite3 (generated "
+         "binary store; `loader enctext` = the Lean TEXT writer encodeText (decimal printing natToDigits / intToDigits) / "
+         "GRec.TextValid / liveRecs against the generator's own text encoder (the grammar of tests/data/golden-uhash-text.dat), its "
+         "independent notion of a record the text format can express and its live-record list, on every generated text store "
+         "(lifetimes over the whole i64 range) and on a fixed set of stores holding an inexpressible record (blank / tab / CR / FF "
+         "in the phrase, character count != syllable count, 0 or 12 syllables, a non-syllable code: `invalid` on both sides, the "
+         "reader's behaviour on those bytes tied by the accompanying `loader start` record); `loader sqlstart` (feature sqlite) = first start over a directory holding only chewing.sqlite3 (generated "
          "current-schema stores written through SqliteDictionary, generated userphrase_v1-schema stores the loader migrates in-file, "
          "plus the repository's golden current-schema and v1-schema files), rows before/after and second start checked by the "
          "oracle; `loader sqlv1` = one generated userphrase_v1-schema store (written through rusqlite: records of 1-11 syllables with "
@@ -39,8 +44,12 @@ PROP = dict(
         "(negative or > u32 frequency, negative time, phone outside u16) is rejected as a whole by SqliteDictionary::open "
         "(sqlite_v1_unreadable_rejected) and migrates nothing, like a malformed text file; with user_freq < orig_freq the "
         "joined view answers the larger one",
-        "ValidLegacy = the file is the encoding (encodeBin / a well-formed text file) of records with pairwise distinct keys; "
-        "a text file containing any malformed line (e.g. a negative number) is rejected as a whole by the reader and migrates nothing",
+        "ValidLegacy = the file is the encoding (encodeBin of GRec.Valid records / encodeText of GRec.TextValid records with an i64 "
+        "header) of records with pairwise distinct keys; GRec.TextValid = 1-11 syllable codes, valid UTF-8 phrase with exactly one "
+        "character per syllable and no ASCII white-space byte (9, 10, 12, 13, 32), four 32-bit fields - the text format cannot express "
+        "anything else (text_separator_refuted: the whole file is rejected; text_charcount_refuted: a DIFFERENT record is read) and "
+        "has no removed mark / negative fields (only live records are written); a text file containing any malformed line (e.g. a "
+        "negative number: text_negative_field_rejected) is rejected as a whole by the reader and migrates nothing",
     ],
 )
 
@@ -50,7 +59,13 @@ MANIFEST = dict(
          "in the new dictionary with its phrase, syllables, frequency and time (last record wins per key) and nothing else is, the "
          "binary encoding of ANY store of valid records (1-11 syllables, removed and negative records interspersed, any lifetime) reads "
          "back exactly its live records (bin_reader_complete, migrate_bin_complete: proved by induction over the record list and "
-         "list-slice lemmas), any text lifetime is accepted (F26 fixed), the loader never changes the legacy files, "
+         "list-slice lemmas), the TEXT file written for ANY store of text-valid records (1-11 syllables, one character per syllable, no "
+         "ASCII white space in the phrase; removed and negative records are not written) with any i64 lifetime reads back exactly its "
+         "live records (text_reader_complete, migrate_text_complete; also with CR LF line ends and trailing blanks: "
+         "text_reader_complete_crlf_pad), resting on the decimal print/parse round trip in both directions (decimal_roundtrip, "
+         "decimal_signed_roundtrip: parse(print n) = n iff n fits the type; leading zeros and '+' tolerated, '-' and blanks around the "
+         "header rejected) and on characterisations of BufRead::lines and split_ascii_whitespace with general accumulators; any text "
+         "lifetime is accepted (F26 fixed), the loader never changes the legacy files, "
          "a second start takes the current-file branch and yields the same map, and a phrase learned afterwards coexists with the "
          "migrated ones. Older SQLite schema (userphrase_v1): relational model Model/SqliteV1.lean of "
          "migrate_from_userphrase_v1 + the joined view entries() reads, with the SELECT list, phone-loop range, column types and INSERT "
@@ -59,9 +74,14 @@ MANIFEST = dict(
          "migrates to a view holding every record under its full key and nothing else), sqlite_v1_last_wins, sqlite_v1_first_start "
          "(chained with the loader), sqlite_v1_unreadable_rejected, sqlite_v1_hole_skipped. Tie: real first start / second start / learn / restart on temp directories vs. the model, plus an oracle "
          "that compares against the generator's own record list and the legacy file bytes.",
-    note="NOT proved: the text-format round trip (decimal print/parse) - the text reader is tied by correspondence and the oracle "
-         "compares with the generator's record list; SQLite itself (storage, SQL engine, iteration orders) is trusted; the v1->v2 migration is "
+    note="The text-format round trip is proved for exactly the records the format can express (GRec.TextValid) and the writer "
+         "grammar of golden-uhash-text.dat (blank-separated columns, LF or CR LF, optional trailing blanks); TextValid excludes: a "
+         "phrase with an ASCII white-space byte, a phrase whose character count differs from the syllable count, 0 or > 11 syllables, "
+         "non-syllable codes - the unrestricted statement is refuted (text_reader_complete_full_refuted) with concrete witnesses. NOT "
+         "proved: the converse for every inexpressible record (two witnesses only); text files laid out differently (tab separators, "
+         "extra columns, '+'/leading zeros) are accepted by the reader model and covered by correspondence only; the writer model is "
+         "tied to the harness encoder byte for byte (loader enctext), the legacy C writer itself is not in the repository. SQLite itself (storage, SQL engine, iteration orders) is trusted; the v1->v2 migration is "
          "modelled relationally and tied by sqlv1 records on generated v1 stores, the current-schema store is abstract (its rows are "
          "what entries() yields) and covered by correspondence + oracle on generated stores; the golden files are an extra.",
-    technique="Lean 4 proof (induction over the record list, map lemmas, encoder/decoder round trip) + sampled model-implementation correspondence",
+    technique="Lean 4 proof (induction over the record list, map lemmas, binary and text encoder/decoder round trips, decimal print/parse) + sampled model-implementation correspondence",
 )
